@@ -470,6 +470,7 @@ func runC13(c *Ctx) {
 		o  c13Out
 	}
 	var pending []pend
+	timeouts := 0
 	defer func() {
 		// one driver process for all scenarios (every scenario starts with `init`, which resets the model)
 		var all []string
@@ -503,6 +504,12 @@ func runC13(c *Ctx) {
 		}
 		if o.inconclusive {
 			r.Count("inconclusive.timeout")
+			timeouts++
+			if timeouts == 6 {
+				// one time-out is inconclusive; six scenarios in which released frames are never routed is a broken pipeline
+				r.Disagree("K5 progress (Model.Link routes every released frame)",
+					"in 6 scenarios the receiving connection did not route frames that were released to it within 3 s (or the sender did not write them)", sc)
+			}
 		}
 	}
 	// 1. the listed witnesses (and the witnesses of repaired defects), replayed on every run
